@@ -16,6 +16,7 @@ HARNESSES = {
     "H7": {"pkg": ".", "run": "^TestVerifH7$", "streams": ["h7"], "toolchain": "go1.26.0", "timeout": (300, 900)},
     "H3": {"pkg": "./internal/server/", "run": "^TestVerifH3$", "streams": ["h3"], "toolchain": "go1.26.0", "timeout": (300, 900)},
     "H4": {"pkg": ".", "run": "^TestVerifH4$", "streams": ["h4"], "toolchain": "go1.26.0", "timeout": (300, 1200)},
+    "H5": {"pkg": ".", "run": "^TestVerifH5$", "streams": ["h5"], "toolchain": "go1.26.0", "timeout": (400, 1800)},
     "H1": {"pkg": "./internal/proto/", "run": "^TestVerifH1$", "streams": ["h1"], "toolchain": None,
            "timeout": (600, 2400)},
 }
@@ -178,6 +179,22 @@ PROPS["C12"] = {
                     "fairness: the retransmission timer of a pending transaction eventually fires (Go runtime)"],
 }
 
+PROPS["C13"] = {
+    "modules": ["TurnModel.Props.C13"], "gen": True,
+    "harnesses": ["H5"], "view": ["cwrite", "cin", "cread", "cadv", "cclose", "cnet"], "outs": None,
+    "alarms": ["inbound-blocks", "h5-setup", "harness-died"],
+    "rule": "H5 drives the real turn.Client + UDPConn (Allocate, WriteTo, ReadFrom, SetReadDeadline, Close, HandleInbound, the 30 s bindings timer) against a scripted TURN server on an "
+            "in-memory socket under virtual time: every write gets a reaction script for CreatePermission and ChannelBind drawn from {ok, 400, 403, 438, 438x2, 438x3, silence, 438+403, 508}; "
+            "inbound Data indications, ChannelData (known/unknown channels, payloads starting with the STUN cookie), requests, undecodable STUN, foreign responses, garbage from the server and "
+            "from elsewhere (direct and through the socket); reads with nothing queued; time steps around 30 s / 300 s; a burst of 1100 datagrams with no reader; 14 ConnectionAttempt "
+            "indications with nobody accepting; 300 (thorough 16500) distinct peers. The wire log at the scripted server and every call result are replayed through the M6 model; "
+            "distinct = (op kind, outcome) pairs",
+    "trusted_base": LEAN_TB + ["hand-written model TurnModel/Model/ClientConn.lean tied to internal/client/{udp_conn,binding,permission}.go and client.go by correspondence harness H5",
+                               "atomic steps: perm.mutex / muBind / atomics serialise the modelled decisions (C18 balanced skeletons cover these functions)"],
+    "assumptions": ["PARTIAL: concurrent writers are interleavings of atomic steps; the Go memory model is not modelled",
+                    "ReadFrom after Close may return either a queued datagram or the closed error (Go select); not compared"],
+}
+
 PROOF_NOTE = ("Trusted: Lean 4.33.0 kernel, axioms propext/Classical.choice/Quot.sound only (audited per theorem on every run), "
               "the hand-written model's tie to the code = correspondence harness + compiled driver (agreement observed on generated cases only). ")
 
@@ -236,6 +253,11 @@ MANIFEST_TEXT.update({
     "C12": _mt("exactly_once over EVERY event history (conservation law: completions + pending = begun), response_matches_by_id, response_other_id_untouched, close_completes_all, "
                "fire_recurrence / timer_rearmed / rtx_schedule (for every RTO: 7 transmissions at the back-off offsets, failure at the 7th firing, table empty), intervals_closed, regenerated constants.",
                "DESIGN.md §6 C12", "Lean 4 conservation law by induction over event histories + symbolic timetable + differential correspondence under virtual time"),
+    "C13": _mt("Inv preserved over every history (permitted => a CreatePermission success covered the IP; ok-state binding => its ChannelBind was confirmed), data_after_permission "
+               "(for ALL server reaction scripts: data goes to the named peer with the given payload only after permission; ChannelData only on a confirmed binding of exactly that peer, "
+               "Send indication otherwise; nothing when the permission fails), only_write_sends_data, nums_distinct_in_range, queue_fifo, chandata_inbound, closed_write_fails. PARTIAL: Go memory model.",
+               "DESIGN.md §6 C13", "Lean 4 invariant over a state machine with server reactions as universally quantified inputs + differential correspondence with a scripted server",
+               "Partial: concurrent writers modelled as interleavings of atomic steps."),
     "C15": _mt("ledger_matches_live (no entity listed twice; count = live allocations), events_paired (over ANY history, created - deleted = 1 iff live: every prefix balances), "
                "step_events_exact, teardown_complete for control-connection close / relay failure / server close, expiry_teardown, closed_server_empty; "
                "tied by comparing the real EventHandler callbacks and the simulated network's socket open/close log with the model's derived events after every operation. "
